@@ -2,6 +2,7 @@ import Lean.Data.Json
 import PegVerif.Exec.Front
 import PegVerif.Model.Compile
 import PegVerif.Model.Optimise
+import PegVerif.Model.Header
 import PegVerif.Model.Machine
 import PegVerif.Model.Sem
 /-
@@ -53,8 +54,14 @@ def emitOne (line : String) : String :=
               | .label l => !(jumps c).contains l
               | _ => false)
             | none => false)
+          let h := headerModel o fr.imports fr.nTop fr.rules.length L.G
+          let hj := Json.mkObj [("pegRuleType", h.pegRuleType),
+            ("ruleNames", Json.arr (h.ruleNames.map Json.str).toArray), ("rulesLen", h.rulesLen),
+            ("imports", Json.arr (h.imports.map Json.str).toArray), ("hasDot", h.hasDot),
+            ("hasString", h.hasString), ("hasActions", h.hasActions), ("hasPush", h.hasPush),
+            ("actions", Json.mkObj (L.actions.map (fun a => (a.1, Json.str a.2))))]
           pure (Json.mkObj [("id", id), ("rules", programJson P), ("nilCase", nilCase),
-            ("unusedLabel", unusedLabel),
+            ("unusedLabel", unusedLabel), ("header", hj),
             ("ruleNames", Json.arr (L.G.rules.map (fun r => Json.str r.name)).toArray)])
     match res with
     | .ok v => v.compress
